@@ -19,7 +19,7 @@ CONSTANTS
  WFar = 2
  NConf <- Conf12
  Universe = "three"
- MaxBlocks = 4
+ MaxBlocks = 3
  MaxProps = 2
  MaxForks = 1
  MaxNotes = 1
